@@ -247,6 +247,9 @@ def _(self: Obj("Survey", entity_features=Opt[List[str]], namespaces=Opt[str])) 
     properties("C01", "C19", "C11")
     trusted("str.split / replace chains over the namespaces setting are outside the solvers' reach: the contract is "
             "checked by bounded native search (small-scope exhaustive token strings), never counted as proved")
+    # C01: a declaration that cannot be written as a namespace declaration is refused, never emitted
+    raises(PyXFormError, when=InvalidNsToken(self.namespaces))
+    ensures(all(k == "xmlns" or (k.startswith("xmlns:") and matches(k[6:], "NCName")) for k in result))
     # C01: every standard prefix stays declared with its own URI (a custom declaration cannot redefine it)
     ensures(all(k in result and result[k] == v for k, v in STD_NSMAP.items()))
     # C19: the entities namespace is declared whenever the form declares an entity ...
